@@ -265,10 +265,61 @@ func FuzzBTree(f *testing.F) {
 	})
 }
 
+// runIdentity: values with identity (pointers). Every Put stores a fresh pointer whose pointee is
+// drawn from {0,1}; Get and Traverse must hand back the very pointer put last (a store skipped
+// because the contents "did not change" keeps the older one).
+func runIdentity(w *core.Worker, c Case) {
+	t := btree.New[int, *int]()
+	model := map[int]*int{}
+	overwrites := 0
+	for i, op := range c.Ops {
+		var p any
+		switch op.K {
+		case "put":
+			v := new(int)
+			*v = (op.Key + i/7) % 2
+			p = core.Catch(func() { t.Put(op.Key, v) })
+			if _, ok := model[op.Key]; ok {
+				overwrites++
+			}
+			model[op.Key] = v
+		case "remove":
+			p = core.Catch(func() { t.Remove(op.Key) })
+			delete(model, op.Key)
+		}
+		if p != nil {
+			w.Violation("btree.panic:"+op.K, fmt.Sprintf("pointer values, step %d %+v panicked: %v", i, op, p))
+			return
+		}
+		for k := 0; k < c.Keys; k++ {
+			v, ok := t.Get(k)
+			mv, mok := model[k]
+			if ok != mok || (ok && v != mv) {
+				w.Violation("btree.identity-get", fmt.Sprintf("pointer values, after step %d (%+v): Get(%d) = (%p, %v), the pointer put last is %p (present=%v)", i, op, k, v, ok, mv, mok))
+				return
+			}
+		}
+		n, bad := 0, false
+		t.Traverse(func(k int, v *int) {
+			n++
+			if mv, ok := model[k]; !ok || mv != v {
+				bad = true
+			}
+		})
+		if bad || n != len(model) {
+			w.Violation("btree.identity-traverse", fmt.Sprintf("pointer values, after step %d (%+v): Traverse visited %d entries (model %d) or delivered a pointer other than the one put last", i, op, n, len(model)))
+			return
+		}
+	}
+	if overwrites > 0 {
+		w.NonTrivial(core.HashString("id" + core.JSON(c)))
+	}
+}
+
 func TestProp(t *testing.T) {
 	r := core.Start(t, "C10")
 	defer r.Finish()
-	r.Rule("cases = Put (fresh value per step)/Remove/Get sequences on btree.BTree[int,int] checked against a map model: Height <= log2(max(1, distinct keys ever inserted)) after every step, Size, IsEmpty, Get of the key just written/removed before any other lookup, then Get of every probe key and the full Traverse sequence (plain, and again with a second Traverse started from inside the callback), after the last step (sweep) or every 1st/2nd/5th/11th step (random) or periodically (bulk); non-trivial = the sequence overwrote or removed a present key; btree-deep: sorted/reversed loads of 20 000+ keys and shuffled loads of 300-3000 keys of which all or most are removed again (Size after every Remove) and half re-put; btree-orders: insertion orders built from ascending/descending runs over shuffled contiguous key blocks, zigzag and middle-out orders; distinct by hash of the ops")
+	r.Rule("cases = Put (fresh value per step)/Remove/Get sequences on btree.BTree[int,int] checked against a map model: Height <= log2(max(1, distinct keys ever inserted)) after every step, Size, IsEmpty, Get of the key just written/removed before any other lookup, then Get of every probe key and the full Traverse sequence (plain, and again with a second Traverse started from inside the callback), after the last step (sweep) or every 1st/2nd/5th/11th step (random) or periodically (bulk); non-trivial = the sequence overwrote or removed a present key; btree-identity-values: BTree[int,*int], every Put a fresh pointer with pointee in {0,1}, Get of every key and Traverse must return the pointer put last; btree-deep: sorted/reversed loads of 20 000+ keys and shuffled loads of 300-3000 keys of which all or most are removed again (Size after every Remove) and half re-put; btree-orders: insertion orders built from ascending/descending runs over shuffled contiguous key blocks, zigzag and middle-out orders; distinct by hash of the ops")
 
 	var alpha []Op
 	for k := 0; k <= 5; k++ {
@@ -303,6 +354,24 @@ func TestProp(t *testing.T) {
 			emit(c)
 		}
 	}, run)
+
+	nId := r.Pick(4000, 200000)
+	core.Monitor(r, "btree-identity-values", 0, func(emit func(Case)) {
+		rng := r.Rand("c10-identity")
+		for i := 0; i < nId; i++ {
+			keys := []int{3, 8, 24}[rng.Intn(3)]
+			c := Case{Full: true, Keys: keys}
+			for n := rng.Range(6, 60); n > 0; n-- {
+				k := rng.Intn(keys)
+				if rng.Intn(10) < 7 {
+					c.Ops = append(c.Ops, Op{"put", k})
+				} else {
+					c.Ops = append(c.Ops, Op{"remove", k})
+				}
+			}
+			emit(c)
+		}
+	}, runIdentity)
 
 	// bulk loads: sorted / reversed / random order, interleaved removes and re-puts, multi-level splits
 	nBulk := r.Pick(60, 400)
